@@ -130,6 +130,13 @@ func C13(c *Ctx) {
 	c.R.Rule("C13-R4", "E6", "rejection of unknown syntax, branching type, interpreter", 3)
 	c.R.Rule("C13-R5", "E3", "loaders compile before handing a spec out", 2)
 	c.R.Rule("C13-R6", "E6", "a loader of both representations decodes each with its own decoder", 1)
+	c.R.Rule("C13-R7", "E6", "the copy of a specification that a store keeps carries every persisted field", 1)
+	if cp := c.P.Func("crew", "SpecSource", "Copy"); cp != nil {
+		ok, why := faithfulCopy(c, cp, 0)
+		c.R.Check(ok, "C13-R7", "SpecSource.Copy: every persisted field is carried over unchanged", c.P.Pos(cp.Pos()), "each persisted field of the result is the receiver's field (or a faithful copy of it)", why+": a specification written out by the reference store and read back behaves differently (pattern syntax, error settings)")
+	} else {
+		c.R.Break("C13-R7: crew.SpecSource.Copy not found")
+	}
 	c13Decoders(c)
 	compile := c.fn("core", "Spec", "Compile")
 	parse := c.fn("core", "Spec", "ParsePatterns")
